@@ -208,6 +208,58 @@ def run_shard(task):
     return res
 
 
+def run_fuzz(task):
+    """Worker: one atheris campaign (tools/fuzz.py) in a subprocess."""
+    import shutil
+    import subprocess
+    import tempfile
+
+    t0 = time.time()
+    res = {"sub": task["sub"], "shard": "fuzz%d" % task["shard"], "evals": 0, "nontrivial": 0,
+           "fps": [], "labels": {}, "samples": [], "known": {}, "violations": [],
+           "error": None, "wall": 0.0, "excluded_reported": 0}
+    tmp = tempfile.mkdtemp(prefix="verif_fuzz_")
+    try:
+        out = os.path.join(tmp, "result.json")
+        corpus = os.path.join(tmp, "corpus")
+        cmd = [sys.executable, os.path.join(VERIF_DIR, "tools", "fuzz.py"), task["prop"], task["sub"],
+               "--runs", str(task["n"]), "--seed", str(task["seed"] % (2**31 - 1) + 1),
+               "--out", out, "--corpus", corpus]
+        p = subprocess.run(cmd, capture_output=True, text=True, cwd=VERIF_DIR)
+        if not os.path.exists(out):
+            res["error"] = "fuzz.py produced no result: " + (p.stderr or p.stdout)[-1500:]
+            return res
+        with open(out) as f:
+            d = json.load(f)
+        res["evals"] = d["evals"]
+        res["nontrivial"] = d["nontrivial"]
+        res["fps"] = d["fps"]
+        res["labels"] = {"atheris:" + k: v for k, v in d["labels"].items()}
+        res["labels"]["atheris:byte-strings-tried"] = d.get("calls", 0)
+        res["samples"] = d["samples"]
+        res["known"] = d["known"]
+        if d.get("violation"):
+            res["violations"].append(d["violation"])
+        elif d.get("error"):
+            res["error"] = "fuzz harness error: " + d["error"][-1500:]
+        elif p.returncode != 0:
+            res["error"] = "fuzz.py exit %d: %s" % (p.returncode, (p.stderr or "")[-1500:])
+    except BaseException as e:  # noqa: BLE001
+        res["error"] = "".join(traceback.format_exception(e))[-3000:]
+    finally:
+        shutil.rmtree(tmp, ignore_errors=True)
+    res["wall"] = time.time() - t0
+    return res
+
+
+def dispatch(task):
+    return run_fuzz(task) if task.get("kind") == "fuzz" else run_shard(task)
+
+
+def have_atheris():
+    return os.path.isdir(os.path.join(VERIF_DIR, ".deps", "atheris"))
+
+
 def _greedy_min(sub, case, key, detail, budget=40):
     improved = True
     while improved and budget > 0:
@@ -270,6 +322,15 @@ def plan_tasks(mod, prop, tier, seed, only=None, scale=1.0):
                 "prop": prop, "sub": sub.name, "shard": i, "n": per, "tier": tier,
                 "seed": core.derive_seed(seed, prop, sub.name, i), "cost": sub.cost * per,
             })
+        if tier == "thorough" and sub.fuzz_runs > 0 and have_atheris():
+            fs = max(1, sub.fuzz_shards)
+            for i in range(fs):
+                tasks.append({
+                    "kind": "fuzz", "prop": prop, "sub": sub.name, "shard": i,
+                    "n": int(math.ceil(sub.fuzz_runs * scale / fs)), "tier": tier,
+                    "seed": core.derive_seed(seed, prop, sub.name, "fuzz", i),
+                    "cost": sub.cost * sub.fuzz_runs / fs / 5.0,
+                })
     tasks.sort(key=lambda t: -t["cost"])
     return tasks
 
@@ -336,7 +397,7 @@ def main(argv=None):
     regress_n = 0
     with ctx.Pool(min(args.jobs, max(1, len(tasks) + 1))) as pool:
         rr = pool.apply_async(replay_task, ({"prop": prop, "paths": regress},)) if regress else None
-        it = pool.imap_unordered(run_shard, tasks)
+        it = pool.imap_unordered(dispatch, tasks)
         for _ in range(len(tasks)):
             remaining = budget - (time.time() - t0)
             try:
@@ -368,6 +429,8 @@ def main(argv=None):
                                             "known_excluded": 0})
         s["evaluations"] += res["evals"]
         s["nontrivial"] += res["nontrivial"]
+        if str(res["shard"]).startswith("fuzz"):
+            s["atheris_cases"] = s.get("atheris_cases", 0) + res["evals"]
         s["fps"].update(res["fps"])
         s["wall_s"] += res["wall"]
         for k, v in res["labels"].items():
@@ -422,6 +485,7 @@ def main(argv=None):
                            "nontrivial_frac": s.get("nontrivial_frac"),
                            "labels": dict(sorted(s["labels"].items())),
                            "known_excluded": s["known_excluded"],
+                           "atheris_cases": s.get("atheris_cases", 0),
                            "rule": find_sub(mod, name).rule,
                            "cpu_s": round(s["wall_s"], 1)}
                     for name, s in sorted(per_sub.items())
